@@ -313,6 +313,49 @@ class StingySelectH(_B):
             out.append(("stingy/all.values", band(*[d0[k] == vals[k] for k in vals if k in d0])))
         return out
 
+    def concretise(self, case, k, model, c, st):
+        from .common import _mv
+        return {"case": dict(case), "vals": {k_: _mv(model, v.t) for k_, v in st["vals"].items()}}
+
+    def replay(self, w):
+        """a real configurator (leaves a, b under a named rule R and a rule with a generated id) with a recording solver that
+        answers (vector, None): the same clauses"""
+        import numpy as np
+        import puan.logic.plog as pg
+        import puan.modules.configurator as cc
+        cfg = cc.StingyConfigurator(pg.Any("a", "b", variable="R"), pg.AtMost(1, ["a", "b"]), id="cfg")
+        rec = {}
+
+        def solver(p, objs):
+            rec["calls"] = rec.get("calls", 0) + 1
+            rec["cols"] = [v.id for v in p.A.variables]
+            return [(np.arange(100, 100 + p.A.shape[1]), 7, 5), (None, 0, 4)][: len(objs)] if len(objs) <= 2 else \
+                [(np.arange(100, 100 + p.A.shape[1]), 7, 5)] * len(objs)
+        only = w["case"]["only_leafs"]
+        res = list(cfg.select({"a": 1}, {"b": 1}, solver=solver, only_leafs=only))
+        violated, detail = [], {"columns": [str(x) for x in rec.get("cols", [])]}
+        if rec.get("calls") != 1:
+            violated.append("stingy/forward")
+        if len(res) != 2:
+            violated.append("stingy/count")
+            return {"violated": violated, "detail": detail}
+        val = {cid: 100 + j for j, cid in enumerate(rec["cols"])}
+        if only:
+            if sorted(res[0].keys()) != ["a", "b"]:
+                violated.append("stingy/only_leafs.keys")
+            elif any(int(res[0][k]) != val[k] for k in ("a", "b")):
+                violated.append("stingy/only_leafs.values")
+            if res[1] != {}:
+                violated.append("stingy/only_leafs.none")
+            detail["answers"] = [str(r_) for r_ in res]
+        else:
+            d0 = res[0][0]
+            if sorted(map(str, d0.keys())) != sorted(map(str, val.keys())):
+                violated.append("stingy/all.keys")
+            elif any(int(d0[k]) != val[k] for k in val):
+                violated.append("stingy/all.values")
+        return {"violated": violated, "detail": detail}
+
 
 
 class SolveBuiltinH(Harness):
